@@ -105,7 +105,7 @@ func RunCheck(w *World, o CheckOpts) int {
 			// drop obligations whose class the property does not use
 			var kept []*Obligation
 			for _, ob := range res.Engine.Obls {
-				if g.keeps(ob.Class) {
+				if g.keepsObl(ob) {
 					kept = append(kept, ob)
 				}
 			}
@@ -383,7 +383,7 @@ func WriteBaseline(w *World, prop, verifDir string) error {
 		}
 		lines = append(lines, "fn "+k)
 		for _, ob := range res.Engine.Obls {
-			if !g.keeps(ob.Class) {
+			if !g.keepsObl(ob) {
 				continue
 			}
 			switch ob.Class {
